@@ -36,6 +36,7 @@ type Profile struct {
 	Soak        bool // one run in forty ends with a long stretch (1000-2000) of cheap writes in one process
 	Symlinks    bool // the database path may become a symbolic link before a reopen
 	Dashboard   bool // the HTML listing at / is fetched too
+	KEKRotate   bool // C03, C05: the operator rotates the key-encryption key (new primary, old keys kept) before some reopens
 	LaxModes    bool // C03: the file may have been given a lax mode by an operator before a reopen
 	CondHeavy   bool // C09
 	FileClient  bool // C09: judge FileClient on a file generated from the model
@@ -351,6 +352,9 @@ func (e *Env) restartAs(kind, what string) {
 		e.laxIno = st.Ino
 	}
 	_ = lax
+	if e.Prof.KEKRotate && e.T.Bool(1, 4) && e.KEK.Rotate() {
+		e.S.Fault("kek-rotated")
+	}
 	if e.Prof.Symlinks && e.T.Bool(1, 6) {
 		// an operator moved the database to another volume and left a
 		// (relative) symbolic link at the configured path
